@@ -22,7 +22,7 @@ ASSUMPTIONS = ['closed feature intervals [start,end]; a range query [a,b] with a
                'queries are issued after sort() as in the quantifier (add*/sort/query*); feature coordinates are >= 0',
                'strand convention for FeatureAnnotatedMolecule as documented (None unstranded, False same strand as R1, True other strand); SingleEndTranscriptFragment only checked unstranded']
 MIN_NONTRIVIAL = {'quick': 3000, 'thorough': 1000000}
-REQUIRED_MONITORS = ['ret:findFeaturesAt', 'ret:findFeaturesBetween', 'ret:findFeaturesAtPysamAlign0', 'ret:findFeaturesAtPysamAlign1',
+REQUIRED_MONITORS = ['ret:molecule_of_two_fragments.annotate', 'ret:findFeaturesAt', 'ret:findFeaturesBetween', 'ret:findFeaturesAtPysamAlign0', 'ret:findFeaturesAtPysamAlign1',
                      'ret:molecule.annotate0', 'ret:molecule.annotate1', 'ret:fragment.annotate', 'history:second_round_queries', 'universe:near_or_beyond_2^31', 'history:queried_without_explicit_sort', 'history:round_adding_to_one_contig_only', 'reads:aligned_bases_spelled_eq_x_only', 'ret:findFeaturesAt_on_second_container', 'features:same_interval_name_strand_other_data', 'reads:same_span_other_blocks']
 
 
@@ -218,6 +218,7 @@ def run_case(case):
         earlier_range_queries = r.sample(rq, 40)
         # ---- reads
         prev_read = [None]
+        prev_seg = [None]
         for j in range(25 if big < 2 ** 31 else 0):     # an alignment position is a 32 bit number
             c = r.choice(contigs)
             a = pysam.AlignedSegment(header)
@@ -273,6 +274,30 @@ def run_case(case):
                     if got_ids != exp_ids:
                         violate(f'molecule.annotate{method}', f'FeatureAnnotatedMolecule(stranded={stranded}).annotate({method}) read {desc}',
                                 got_ids, exp_ids, {'read': desc, 'round': rd})
+            if j % 2 == 1 and prev_seg[0] is not None and prev_seg[0].reference_id == a.reference_id:
+                # a molecule of two fragments: the previous read (with its gaps) and this one over the same span - blocks of one read lie inside
+                # a block of the other; the molecule is annotated by the union of the aligned bases of both
+                pa = prev_seg[0]
+                both = sorted(set(positions) | set(p for _, p in pa.get_aligned_pairs(matches_only=True)))
+                same_strand = bool(pa.flag & 16) == rev
+                for stranded in ((None, False, True) if same_strand else (None,)):
+                    if stranded is None:
+                        st = None
+                    else:
+                        st = ('-' if rev else '+') if stranded is False else ('+' if rev else '-')
+                    exp_ids = set(f[4] for f in brute_positions(feats, c, both, st))
+                    for method in (0, 1):
+                        for order in ((pa, a), (a, pa)):
+                            m = FeatureAnnotatedMolecule(Fragment([order[0]]), features=fc, stranded=stranded)
+                            m._add_fragment(Fragment([order[1]]))
+                            m.annotate(method)
+                            acc.evals += 1
+                            acc.count('ret:molecule_of_two_fragments.annotate')
+                            got_ids = set(m.hits.keys())
+                            if got_ids != exp_ids:
+                                violate(f'molecule.annotate{method}', f'FeatureAnnotatedMolecule(stranded={stranded}) of two fragments ({pa.reference_start}:{pa.cigarstring} and '
+                                                                       f'{a.reference_start}:{a.cigarstring}).annotate({method})', got_ids, exp_ids, {'read': desc, 'round': rd})
+            prev_seg[0] = a
             s = SingleEndTranscriptFragment([a], features=fc, stranded=None, auto_set_intron_exon_features=False)
             s.annotate()
             acc.evals += 1
